@@ -45,12 +45,16 @@ def campaign(mod, tier, seed, workers=16):
             env = dict(os.environ)
             env["PYTHONPATH"] = env.get("PYTHONPATH", "") + os.pathsep + DEPS
             cmd = [sys.executable, "-m", "vk.fuzz", mod.__name__, tier, str(seed * 1000 + 500 + w), str(runs), out, corpus]
-            procs.append((w, out, subprocess.Popen(cmd, env=env, stdout=subprocess.DEVNULL, stderr=subprocess.PIPE, cwd=HERE)))
+            # libFuzzer's progress lines go to a file, not a pipe: a full pipe would stall the worker
+            errf = open(os.path.join(tmp, f"w{w}.err"), "wb")
+            procs.append((w, out, subprocess.Popen(cmd, env=env, stdout=subprocess.DEVNULL, stderr=errf, cwd=HERE), errf))
         res = {"evaluations": 0, "nontrivial_hashes": [], "fails": [], "samples": [], "harness_errors": []}
         execs = 0
         feats = []
-        for w, out, p in procs:
-            _, err = p.communicate()
+        for w, out, p, errf in procs:
+            p.wait()
+            errf.close()
+            err = open(errf.name, "rb").read()[-200000:]
             if not os.path.exists(out):
                 res["harness_errors"].append({"case": None, "trace": f"fuzz worker {w} wrote nothing (rc={p.returncode}): " + err.decode(errors="replace")[-1500:]})
                 continue
